@@ -145,20 +145,7 @@ func closureWrites(fn *ssa.Function, cell *ssa.Alloc, mc *ssa.MakeClosure) bool 
 	if idx < 0 || idx >= len(fn.FreeVars) {
 		return true
 	}
-	fv := fn.FreeVars[idx]
-	for _, ref := range *fv.Referrers() {
-		switch r := ref.(type) {
-		case *ssa.Store:
-			if r.Addr == fv {
-				return true
-			}
-		case *ssa.UnOp:
-		case *ssa.DebugRef:
-		default:
-			return true // escapes further (nested closure etc.)
-		}
-	}
-	return false
+	return !freeVarReadOnly(fn, idx, map[ssa.Value]bool{})
 }
 
 func (g *vcgen) assumeTypeInvs(fn *ssa.Function, args []string) {
